@@ -67,6 +67,7 @@ func negotiate(c *core.Ctx) {
 		return false
 	}
 	// the accept list: strings.FieldsFunc/Split/Fields(accept, ...) or a local defined as that
+	tokenizers := map[*ast.CallExpr]string{} // tokenizer call -> problem ("" = splits on commas and blanks)
 	isAcceptList := func(e ast.Expr) bool {
 		e = astx.Unparen(e)
 		if id, ok := e.(*ast.Ident); ok {
@@ -79,7 +80,15 @@ func negotiate(c *core.Ctx) {
 			return false
 		}
 		callee := astx.Callee(info, call)
-		return astx.IsPkgFunc(callee, "strings", "FieldsFunc") || astx.IsPkgFunc(callee, "strings", "Split") || astx.IsPkgFunc(callee, "strings", "Fields")
+		switch {
+		case astx.IsPkgFunc(callee, "strings", "FieldsFunc") && len(call.Args) == 2:
+			tokenizers[call] = tokenizerSplitsOn(p, info, call.Args[1])
+			return true
+		case astx.IsPkgFunc(callee, "strings", "Split"), astx.IsPkgFunc(callee, "strings", "Fields"), astx.IsPkgFunc(callee, "strings", "SplitN"):
+			tokenizers[call] = "does not drop the blanks around the commas of an HTTP list (\"a, b\")"
+			return true
+		}
+		return false
 	}
 	// acceptElem recognises "the current element of the accept list, visited front to back":
 	// the value variable of a range over the list, or list[i] inside `for i := 0; i < len(list); i++`.
@@ -168,6 +177,10 @@ func negotiate(c *core.Ctx) {
 		}
 		return true
 	})
+	for call, problem := range tokenizers {
+		c.Check(problem == "", "accept-list/tokenizer", call.Pos(), "the client's list is split on commas and blanks alike%s", map[bool]string{true: "", false: " - " + problem}[problem == ""])
+		break
+	}
 	c.Check(nReq == 1 && nResp == 1, "assignments", fd.Pos(), "one adoption of the sent name (%d) and one adoption of an accepted name (%d)", nReq, nResp)
 	// exits
 	var probs []string
@@ -1376,4 +1389,51 @@ func paramObjAt(info *types.Info, fd *ast.FuncDecl, idx int) types.Object {
 		}
 	}
 	return nil
+}
+
+// tokenizerSplitsOn evaluates the predicate handed to strings.FieldsFunc for ',', ' ' and a letter:
+// it must cut at commas and blanks and nowhere inside a name. Returns "" when it does.
+func tokenizerSplitsOn(p *core.Program, info *types.Info, pred ast.Expr) string {
+	var body *ast.BlockStmt
+	var param types.Object
+	switch x := astx.Unparen(pred).(type) {
+	case *ast.FuncLit:
+		body = x.Body
+		if len(x.Type.Params.List) == 1 && len(x.Type.Params.List[0].Names) == 1 {
+			param = info.Defs[x.Type.Params.List[0].Names[0]]
+		}
+	default:
+		if f, ok := astx.ObjOf(info, pred).(*types.Func); ok {
+			if fd := p.Decl(f); fd != nil && len(fd.Type.Params.List) == 1 && len(fd.Type.Params.List[0].Names) == 1 {
+				body = fd.Body
+				param = info.Defs[fd.Type.Params.List[0].Names[0]]
+			}
+		}
+	}
+	if body == nil || param == nil {
+		return "predicate not resolved"
+	}
+	rets := astx.Returns(body)
+	if len(rets) != 1 || len(rets[0].Results) != 1 || len(body.List) != 1 {
+		return "predicate is not a single return expression"
+	}
+	for _, tc := range []struct {
+		r    rune
+		want bool
+	}{{',', true}, {' ', true}, {'a', false}, {'z', false}, {'-', false}, {'0', false}} {
+		env := astx.Env{Int: func(e ast.Expr) (int64, bool) {
+			if astx.ObjOf(info, e) == param {
+				return int64(tc.r), true
+			}
+			return 0, false
+		}}
+		got, err := astx.EvalBool(info, rets[0].Results[0], env, nil)
+		if err != nil {
+			return "predicate not decidable: " + err.Error()
+		}
+		if got != tc.want {
+			return fmt.Sprintf("predicate(%q) = %v", tc.r, got)
+		}
+	}
+	return ""
 }
